@@ -56,7 +56,10 @@ VARIABLES cache,     \* set of tiles stored in the cache
 
 vars == <<cache, lock, fetches, pc, loaded, ci, todo, storing, got, resp>>
 
-\* lock name used for meta tile m by request r
+\* lock name used for meta tile m by request r.  The name is a function of the meta tile of the STORE: it is the same in
+\* every process (no dependence on hash seeds) and for every cache definition that writes to that store (two
+\* configurations, a seeding configuration with names of its own) - harness/c08.py lock_names compares the lock files
+\* that freshly started processes derive.
 LockName(r, m) == IF LockOnMain THEN <<"meta", m>>
                   ELSE <<"tile", CHOOSE t \in Range(Wants[r]) : MetaOf[t] = m>>
 LockNames == {<<"meta", m>> : m \in Meta} \cup {<<"tile", t>> : t \in Tile}
